@@ -273,21 +273,21 @@ Section WalkFacts.
   Variable root : node.
 
   (* what a row says about its node *)
-  Definition row_of (h : hdr) (n : node) (r : row) : Prop :=
-    self_safe E T h = Ok (r_self_safe r)
-    /\ (h_kind h <> KJson -> (r_safe r = true <-> unsafe E T root n = Ok []))
+  Definition row_of (h : hdr) (subs : list node) (r : row) : Prop :=
+    self_safe_of E T h subs = Ok (r_self_safe r)
+    /\ (h_kind h <> KJson -> (r_safe r = true <-> unsafe E T root (Node h subs) = Ok []))
     /\ (h_kind h = KJson -> r_safe r = true)
-    /\ node_format h = Ok (r_val r).
+    /\ format_of h subs = Ok (r_val r).
 
   (* the first row a node yields sits at the requested level and carries the audit's own verdicts *)
   Lemma walk_first_node fuel path name level last h subs r rs :
     fst (walk E T skipped root fuel path name level last (Node h subs)) = r :: rs ->
-    r_level r = level /\ r_key r = name /\ r_last r = last /\ row_of h (Node h subs) r.
+    r_level r = level /\ r_key r = name /\ r_last r = last /\ row_of h subs r.
   Proof.
     destruct fuel as [|fuel]; [nope|]. cbn [walk].
     unfold s_lift.
-    destruct (node_format h) as [val|e] eqn:NF; [|nope].
-    destruct (self_safe E T h) as [ss|e] eqn:SS; [|nope].
+    destruct (format_of h subs) as [val|e] eqn:NF; [|nope].
+    destruct (self_safe_of E T h subs) as [ss|e] eqn:SS; [|nope].
     destruct (kind_eqb (h_kind h) KJson) eqn:KJ.
     - assert (K : h_kind h = KJson) by (destruct (h_kind h); try discriminate; reflexivity).
       rewrite K. cbn [s_cons fst]. intros H. injection H as <- _. cbn [r_level r_key r_last r_self_safe r_safe r_val].
@@ -389,8 +389,14 @@ Proof.
   - apply self_unsafe_not_safe; assumption.
 Qed.
 
-(* ... and for FunctionNode at the current protocol (the audited name is f"{module}.{class}" of the same header):
-   the only kind whose row can be self-unsafe and fully safe is the protocol-0 FunctionNode (finding D31-FunctionNode@0) *)
+(* ... and for both FunctionNodes: at the current protocol the audited name is f"{module}.{class}" of the same header; at
+   protocol 0 (D31-FunctionNode@0 repaired) is_self_safe() looks at the very name the audit reports,
+   content.module_path + "." + content.function.  So for EVERY kind a row that is not self-safe is not fully safe. *)
+Lemma self_safe_of_not_v0 E T h subs : h_kind h <> KFunctionV0 -> self_safe_of E T h subs = self_safe E T h.
+Proof. intros NV. unfold self_safe_of. destruct (h_kind h); try reflexivity. contradiction. Qed.
+Lemma format_of_not_v0 h subs : h_kind h <> KFunctionV0 -> format_of h subs = node_format h.
+Proof. intros NV. unfold format_of. destruct (h_kind h); try reflexivity. contradiction. Qed.
+
 Theorem self_unsafe_not_safe_but_v0 E T root h subs u :
   h_kind h <> KFunctionV0 -> self_safe E T h = Ok false ->
   unsafe E T root (Node h subs) = Ok u -> u <> [].
@@ -405,4 +411,34 @@ Proof.
     unfold self_safe, node_name, jqual in SS. rewrite KF in SS. cbn [kind_eqb] in SS.
     destruct (h_module h) as [| | | |a| |]; try discriminate SS. destruct (h_class h) as [| | | |b| |]; try discriminate SS.
     cbn [bind] in SS. injection SS as SS. cbn [jfmt bind]. rewrite SS. intros X. injection X as <-. discriminate.
+Qed.
+
+(* the protocol-0 FunctionNode: self-safety and the audit test the same name against the same list *)
+Lemma v0_self_safe_is_audit E T root h subs :
+  h_kind h = KFunctionV0 ->
+  (forall b, self_safe_of E T h subs = Ok b ->
+     exists fn, function_name h subs = Ok fn /\ b = mem fn (node_trusted E T h)
+                /\ unsafe E T root (Node h subs) = Ok (if b then [] else [fn]))
+  /\ (forall e, self_safe_of E T h subs = Raise e ->
+        function_name h subs = Raise e /\ unsafe E T root (Node h subs) = Raise e).
+Proof.
+  intros KV. unfold self_safe_of, unsafe. rewrite unsafe_fuel_S. cbn [unsafe_g]. rewrite KV. cbn [ukind_of]. unfold fn_unsafe.
+  destruct (function_name h subs) as [fn|e0]; cbn [bind]; split.
+  - intros b X. injection X as <-. exists fn. split; [reflexivity|]. split; [reflexivity|].
+    destruct (mem fn (node_trusted E T h)); reflexivity.
+  - intros e X. discriminate X.
+  - intros b X. discriminate X.
+  - intros e X. injection X as <-. split; reflexivity.
+Qed.
+
+Theorem self_unsafe_not_safe_any E T root h subs u :
+  self_safe_of E T h subs = Ok false ->
+  unsafe E T root (Node h subs) = Ok u -> u <> [].
+Proof.
+  intros SS U. destruct (kind_eqb (h_kind h) KFunctionV0) eqn:KE.
+  - assert (KV : h_kind h = KFunctionV0) by (destruct (h_kind h); try discriminate KE; reflexivity).
+    destruct (proj1 (v0_self_safe_is_audit E T root h subs KV) false SS) as [fn [_ [_ X]]].
+    rewrite X in U. injection U as <-. discriminate.
+  - assert (NV : h_kind h <> KFunctionV0) by (intros X; rewrite X in KE; discriminate KE).
+    rewrite (self_safe_of_not_v0 E T h subs NV) in SS. eapply self_unsafe_not_safe_but_v0; eassumption.
 Qed.
